@@ -64,51 +64,51 @@ theorem C06_world_replicated_bytes_once (j : Job) (wf : j.WF) (st0 : RankState) 
   world_replicated_bytes_once j wf st0 h0 us0 hus0
 
 /-! ## Non-vacuity: a concrete two-rank job with a chunked replicated tensor split across the ranks -/
-private def tA : Ts.Serial.Tensor := ⟨"float32", [3, 2], List.range 24⟩
-private def tB : Ts.Serial.Tensor := ⟨"bfloat16", [3], [1, 2, 3, 4, 5, 6]⟩
-private def tC : Ts.Serial.Tensor := ⟨"int8", [2, 0], []⟩
+def exTA : Ts.Serial.Tensor := ⟨"float32", [3, 2], List.range 24⟩
+def exTB : Ts.Serial.Tensor := ⟨"bfloat16", [3], [1, 2, 3, 4, 5, 6]⟩
+def exTC : Ts.Serial.Tensor := ⟨"int8", [2, 0], []⟩
 
-private def job : Job where
+def exJob : Job where
   cfg := ⟨8, 16, true⟩
-  states := [[(1, .tensor tA), (2, .blob [9, 9, 9]), (5, .tensor tB)], [(1, .tensor tA), (3, .tensor tC), (5, .tensor tB)]]
+  states := [[(1, .tensor exTA), (2, .blob [9, 9, 9]), (5, .tensor exTB)], [(1, .tensor exTA), (3, .tensor exTC), (5, .tensor exTB)]]
   rep := fun p => p == 1 || p == 5
   owner := fun u => if u = (1, some (1, 1)) ∨ u = (5, none) then 1 else 0
 
-private theorem job_wf : job.WF where
+theorem exJob_wf : exJob.WF where
   chunk := by decide
   slab := by decide
   leaves := by
     intro st hst x hx
-    simp only [job, List.mem_cons, List.not_mem_nil, or_false] at hst
+    simp only [exJob, List.mem_cons, List.not_mem_nil, or_false] at hst
     rcases hst with rfl | rfl <;> simp only [List.mem_cons, List.not_mem_nil, or_false] at hx <;>
       rcases hx with rfl | rfl | rfl <;> simp [LeafOk] <;> decide
   paths := by
     intro st hst
-    simp only [job, List.mem_cons, List.not_mem_nil, or_false] at hst
+    simp only [exJob, List.mem_cons, List.not_mem_nil, or_false] at hst
     rcases hst with rfl | rfl <;> decide
   repAll := by
     intro p hp st hst
-    simp only [job, Bool.or_eq_true, beq_iff_eq] at hp
-    simp only [job, List.mem_cons, List.not_mem_nil, or_false] at hst
+    simp only [exJob, Bool.or_eq_true, beq_iff_eq] at hp
+    simp only [exJob, List.mem_cons, List.not_mem_nil, or_false] at hst
     rcases hp with rfl | rfl <;> rcases hst with rfl | rfl
-    · exact ⟨.tensor tA, by simp⟩
-    · exact ⟨.tensor tA, by simp⟩
-    · exact ⟨.tensor tB, by simp⟩
-    · exact ⟨.tensor tB, by simp⟩
+    · exact ⟨.tensor exTA, by simp⟩
+    · exact ⟨.tensor exTA, by simp⟩
+    · exact ⟨.tensor exTB, by simp⟩
+    · exact ⟨.tensor exTB, by simp⟩
   repSame := by
     intro p hp st₁ h₁ st₂ h₂ l₁ l₂ m₁ m₂
-    simp only [job, Bool.or_eq_true, beq_iff_eq] at hp
-    simp only [job, List.mem_cons, List.not_mem_nil, or_false] at h₁ h₂
+    simp only [exJob, Bool.or_eq_true, beq_iff_eq] at hp
+    simp only [exJob, List.mem_cons, List.not_mem_nil, or_false] at h₁ h₂
     rcases hp with rfl | rfl <;> rcases h₁ with rfl | rfl <;> rcases h₂ with rfl | rfl <;>
       simp at m₁ m₂ <;> rw [m₁, m₂]
   owner := by
     intro u
-    simp only [job]
+    simp only [exJob]
     split <;> simp
 
 /-- rank 1 restores the replicated chunked tensor whose middle chunk it wrote itself and whose other chunks rank 0 wrote -/
-example : ∃ en, worldEntry job 1 1 (.tensor tA) = .ok en ∧ worldRestore job id en = .ok (.tensor tA) := by
-  obtain ⟨en, h1, h2, _⟩ := C01_world_roundtrip job job_wf id (fun _ => List.Perm.refl _) 1 _ rfl 1 (.tensor tA) (by simp)
+example : ∃ en, worldEntry exJob 1 1 (.tensor exTA) = .ok en ∧ worldRestore exJob id en = .ok (.tensor exTA) := by
+  obtain ⟨en, h1, h2, _⟩ := C01_world_roundtrip exJob exJob_wf id (fun _ => List.Perm.refl _) 1 _ rfl 1 (.tensor exTA) (by simp)
   exact ⟨en, h1, h2⟩
 
 end Ts.World
